@@ -66,6 +66,9 @@ def run(ctx):
         ctx.layer("full-alphabet-k2", filters=n2, exhaustive=True)
         n3 = SC.generic_layer(ctx, BK, "reduced", 3, kwcase=True)
         ctx.layer("reduced-alphabet-k3+keyword-case", filters=n3, exhaustive=True)
+    nrf = SC.refusable_layer(ctx, BK)
+    ctx.layer("logic-as-comparison-operand", filters=nrf, exhaustive=True,
+              note="and/or/not as an operand of eq / ne / a null test: refused with a library exception, or answered with the right rows")
     nb = SC.boolean_operand_layer(ctx, BK)
     ctx.layer("boolean-operands", filters=nb, exhaustive=True,
               note="eq/ne between every ordered pair of boolean-valued lookups (comparisons, boolean functions, null tests, in-tests, the boolean field, literals), alone, negated and beside another clause; the bare boolean field as a predicate")
